@@ -34,7 +34,7 @@ CHECKS = {
     "C12": C("runtime monitoring: four-way option-flip monitor (same wire request signed folded and verbatim, validated with folding on and off) + returned-URI multiset check",
              "Held on K observed executions: with folding on and a form body exactly the merged-multiset signature (empty payload hash) is accepted, otherwise exactly the verbatim-body signature; names occurring in URL and body are kept; body byte flips refused; undecodable bodies / unknown charsets → 400.", "§4 C12"),
     "C13": C("runtime monitoring: defect-injection workload judged by a total reference decision model (earliest failing check + error class) and a kind→(code,status) table monitor; thorough adds a coverage-guided (libFuzzer) run with every monitor as the oracle",
-             "Held on K observed executions: all single defects, all pairs and random subsets of 35 injectors on both carriers report the earliest failing check's class; every (earlier, later, carrier) cell of the pair matrix observed; every error seen and every variant constructed directly obeys the kind → (code, status) table.", "§4 C13"),
+             "Held on K observed executions: all single defects, all pairs and random subsets of 34 injectors on both carriers report the earliest failing check's class; every (earlier, later, carrier) cell of the pair matrix observed; every error seen and every variant constructed directly obeys the kind → (code, status) table.", "§4 C13"),
     "C14": C("fault enumeration: complete enumeration of provider scripts within bounds × request classes, offline event-log checker; random histories on a shared provider",
              "All 472 provider scripts (readiness delayed 0–3 then ready/22 error shapes; answer delayed 0–3 then right key / wrong key / 22 error shapes) × 15 request classes × 2 carriers, 20 further pre-lookup defect classes under a diagonal of 16 scripts, the crate's own adapter as provider, the authenticator's own route executed and decided: no provider event for requests refused earlier, exactly one call after Ready(Ok), errors passed on as (kind, text), never Ok after an error or with a wrong key; histories sharing one provider equal fresh-provider runs.", "§4 C14", level="fault_enumeration"),
     "C15": C("runtime monitoring: field-by-field equality of returned parts/body/identity with the harness's copy of the submission (merged-multiset rule when folding applied)",
